@@ -5,7 +5,10 @@ fs machine - C27 (BASIC file access stays inside the mounted drives) and
 Scratch layout of every run (all on tmpfs, removed by finish()):
 
     <scratch>/TOP.TXT                      sentinel above the watched root
-    <scratch>/proccwd/CWDSENT.TXT          the process cwd during the run (relative-path escapes land here)
+    <scratch>/proccwd/CWDSENT.TXT A.TXT .. the process cwd during the run (relative-path escapes land here); it holds
+                                           sentinels under the names the workload opens on the drives
+    <scratch>/harness/                     where the harness puts the suspend/resume state file (removed after resume)
+    <scratch>/away/                        where 'the medium' goes while a drive's directory is taken away
     <scratch>/outer/SENTINEL.TXT .BAS      sentinels next to the mounts
     <scratch>/outer/QZLEAK7.DAT            a name the workload never types (found only by listing)
     <scratch>/outer/secret/...             sentinel directory
@@ -13,6 +16,18 @@ Scratch layout of every run (all on tmpfs, removed by finish()):
     <scratch>/outer/mountC  -> C:   (optionally with a start cwd)
     <scratch>/outer/mountD  -> D:
     <scratch>/outer/mountAt -> @:   (some runs; otherwise @: stays unmounted)
+    <scratch>/outer/linkC, linkD           symbolic links to mountC, mountD (a drive may be mounted through them)
+
+The mount point of C: and D: is passed to Session(devices=...) under one of many spellings of the
+same directory (cfg spellC/spellD: trailing or doubled separators, '.' and '..' elements, through the
+symbolic link, relative to the process cwd, or a subdirectory of the tree as the drive); the drive's
+tree is the real path of whatever was passed, and everything else is outside.
+
+Some histories keep disk files open on #2/#3 (keep_* / io_* statements) and restart the session
+(Session.suspend, close, Session.resume) with them open; while the session is down another party
+may remove or rename the open files or take the drive's directory away (and bring it back later).
+Suspend, close and resume run under the same monitor as a statement; the only extra entry on the
+allow-list is the state file itself.
 
 SimFS watches <scratch>/outer only, so sentinel accesses are 'inside the watched root, outside
 the mounts'.
@@ -49,25 +64,30 @@ from .common import execute, b, u
 NAME = 'fs'
 PROPS = ('C27', 'C28')
 RULE = ('one evaluation = one simulated session history of file statements (OPEN/LOAD/SAVE/MERGE/CHAIN/RUN/'
-        'BLOAD/BSAVE/KILL/NAME/FILES/MKDIR/RMDIR/CHDIR) on two or three mounted scratch trees with sentinels '
-        'around them and host-side changes by another party between statements; distinct = distinct (property, '
+        'BLOAD/BSAVE/KILL/NAME/FILES/MKDIR/RMDIR/CHDIR, I/O through files kept open, suspend/resume with open '
+        'files) on two or three scratch trees mounted under varying spellings of their path, with sentinels '
+        'around them and host-side changes by another party between statements and while suspended; distinct = distinct (property, '
         'statement kind, path/name shape class, outcome error code, candidate-count bucket, cwd depth) tuples; '
         'non-trivial = at least one statement reached the host file system under the monitor')
 REAL = ['pcbasic.basic (whole package)', 'pcbasic.basic.devices.disk / files (path resolution, name matching)',
         'host tmpfs for every file operation', 'simfs wrappers + sys.addaudithook monitor']
 STUB = ['wall clock (simulated)', 'interface queues (simulated, recording)',
-        'the other party on the shared mount (scripted host-side create/remove/rename between statements)']
+        'the other party on the shared mount (scripted host-side create/remove/rename between statements and '
+        'while the session is suspended, including taking the mounted directory away)']
 ASSUMPTIONS = [
-    'no symlinks are placed inside a mount (host configuration, outside C27)',
+    'no symlinks are placed inside a mount (host configuration, outside C27); the mount point itself may be one',
     'POSIX host: hidden = dot files, no Windows short names',
     'stat-like probes are seen by the wrappers only (there is no audit event for os.stat)',
 ]
 BATCH = 20
 
-SENT_NUM = [7770001, 7770002, 7770003, 7770004, 7770005, 7770006]
+SENT_NUM = [7770001, 7770002, 7770003, 7770004, 7770005, 7770006, 7770007, 7770008, 7770009, 7770010]
 MARKERS = [b'MRKQZ', b'QZLEAK', b'QZHID'] + [str(n).encode() for n in SENT_NUM]
 PH_B = '<<OB>>'      # outer path with backslashes
 PH_N = '<<O>>'       # outer path, native
+PH_M = '<<M>>'       # mount spelling: the drive's directory name (mountC / mountD)
+PH_L = '<<L>>'       # mount spelling: the symbolic link to it (linkC / linkD)
+SPELL_PLAIN = PH_N + '/' + PH_M
 _FREE = re.compile(br'\d+ Bytes free')
 _UID = re.compile(br'PRINT (\d{7})')
 
@@ -183,11 +203,11 @@ def rand_weak(rng):
 
 DIRSEG = ['..', '..', '..', '.', '...', '....', 'SUB', 'sub', 'Sub', 'DEEP', 'LongDirName', 'LONGDI~1', 'LONGDIRN',
           'secret', 'SECRET', 'mountC', 'mountD', 'mountCX', 'outer', 'proccwd', '*', '?', '', ' ', '.. ', '..\\..',
-          'NEWDIR', 'MIXed', 'caf\xe9']
+          'NEWDIR', 'MIXed', 'caf\xe9', 'linkC', 'linkD', 'D3', 'away', 'harness']
 LEAF27 = ['SENTINEL.TXT', 'SENTINEL.BAS', 'sentinel.txt', 'SENTINEL', 'SENTINEL.*', '*.*', '*', '????????.???',
           'S.BAS', 'SECRET.TXT', 'PFX.TXT', 'TOP.TXT', 'CWDSENT.TXT', 'A.TXT', 'a.txt', 'B.BAS', 'B', 'NEW1.TXT',
           'NEW2', 'X', '..', '.', '', '...', 'LongFileName.txt', 'caf\xe9.txt', 'mountC', 'mountD', 'secret', 'outer',
-          'SUB', 'DEEP', 'NEWDIR', 'D.DAT', '.. ', '..\\', 'NUL', 'PRN']
+          'SUB', 'DEEP', 'NEWDIR', 'D.DAT', '.. ', '..\\', 'NUL', 'PRN', 'S1.TXT', 'linkC', 'FS.STATE']
 DRIVES27 = (['', 'C:', '', 'D:'] * 6 + ['c:', 'd:', '@:', 'A:', 'Z:', 'C:D:', 'D:C:', 'C:\\D:'] * 2 +
             ['1:', 'CD:', ':', 'AB:', '@A:'])
 LEADS27 = ['', '', '', '', '\\', '\\', '\\\\', '\\\\?\\', '\\\\.\\', '\\\\A\\', '\\\\SUB\\', '\\\\SUB\\DEEP\\', '/',
@@ -196,13 +216,64 @@ STMT27 = ['open_o', 'open_a', 'open_i', 'open_i', 'open_r', 'open_old', 'load', 
           'save_a', 'save_p', 'bload', 'bsave', 'kill', 'kill', 'name', 'name', 'files', 'files', 'mkdir', 'rmdir',
           'chdir', 'chdir', 'chdir']
 
+# every way a user may legally spell the directory given to Session(devices={'C:': ...}); PH_N is the
+# absolute path of <scratch>/outer, '../outer' the same place seen from the process cwd
+SPELL27 = [SPELL_PLAIN] * 9 + [
+    PH_N + '/' + PH_M + '/', PH_N + '/' + PH_M + '/', PH_N + '/' + PH_M + '//', PH_N + '//' + PH_M,
+    PH_N + '//' + PH_M + '/', '/' + PH_N + '/' + PH_M, PH_N + '/./' + PH_M, PH_N + '/' + PH_M + '/.',
+    PH_N + '/' + PH_M + '/./', PH_N + '/secret/../' + PH_M, PH_N + '/' + PH_M + '/../' + PH_M + '/',
+    PH_N + '/' + PH_M + '/SUB/..', PH_N + '/' + PH_M + '/SUB/../',
+    PH_N + '/' + PH_L, PH_N + '/' + PH_L + '/', PH_N + '/' + PH_L + '/.',
+    '../outer/' + PH_M, '../outer/' + PH_M + '/', './../outer//' + PH_M, '../outer/' + PH_L + '/',
+    '../proccwd/../outer/' + PH_M,
+    PH_N + '/' + PH_M + '/SUB', PH_N + '/' + PH_M + '/SUB/', '../outer/' + PH_M + '/SUB//',
+]
+
+
+def spell_class(tmpl):
+    """Coarse class of a mount spelling (for signatures), None for the plain absolute path."""
+    if not tmpl or tmpl == SPELL_PLAIN:
+        return None
+    if not tmpl.startswith(PH_N) and not tmpl.startswith('/'):
+        return 'relative'
+    if PH_L in tmpl:
+        return 'symlink'
+    t = tmpl.rstrip('/')
+    if t.endswith('/SUB'):
+        return 'subdirectory'
+    if '/../' in tmpl or t.endswith('/..'):
+        return 'dotdot-element'
+    if '/./' in tmpl or t.endswith('/.'):
+        return 'dot-element'
+    if '//' in t:
+        return 'doubled-sep'
+    return 'trailing-sep'
+
+
+# files kept open over several statements and over suspend/resume (numbers 2 and 3; #1 is the
+# scratch number of the one-line statements)
+KEEP_KINDS = ['keep_i', 'keep_i', 'keep_o', 'keep_o', 'keep_a', 'keep_r']
+KEEP_PATHS = ['A.TXT', 'B.BAS', 'C:\\A.TXT', 'C:\\B.BAS', 'C:\\SUB\\S1.TXT', 'SUB\\S1.TXT', 'S1.TXT', 'D:D.DAT',
+              'D:\\D.DAT', 'NEW1.TXT', 'C:\\NEW1.TXT', 'SUB\\NEW2', 'D:\\SUB\\X', 'X', 'C:\\SUB\\DEEP\\S2.BAS',
+              'LongDirName\\LongFileName.txt', '@:A.TXT', '..\\A.TXT', '..\\..\\B.BAS']
+IO_KINDS = ['io_in', 'io_in', 'io_out', 'io_out', 'io_get', 'io_put', 'io_close', 'io_eof']
+DOWN_NAMES = ['A.TXT', 'A.TXT', 'B.BAS', 'S1.TXT', 'D.DAT', 'NEW1.TXT', 'NEW2', 'X', 'S2.BAS', 'SUB', 'DEEP']
+
 
 def gen_path27(rng):
     r = rng.random()
     if r < 0.12:
         # ordinary in-mount use, so that histories (cwd, created dirs/files) develop
         return rng.choice(['SUB', 'SUB\\DEEP', 'A.TXT', 'B.BAS', 'NEW1.TXT', 'NEWDIR', 'SUB\\NEW2', 'D:D.DAT',
-                           'C:\\SUB', '\\', 'D:\\', '..', 'LongDirName', 'NEWDIR\\X', '\\SUB\\DEEP', 'MIXed'])
+                           'C:\\SUB', '\\', 'D:\\', '..', 'LongDirName', 'NEWDIR\\X', '\\SUB\\DEEP', 'MIXed',
+                           'DEEP', 'D3', 'SUB\\DEEP\\D3', 'D3\\D4', '\\SUB\\DEEP\\D3\\D4', 'D:SUB', 'D:SUB\\DEEP'])
+    if r < 0.22:
+        # more leading '..' than any working directory is deep, towards names that exist above the drive
+        p = (rng.choice(['', '', '', 'C:', 'D:', 'c:', '@:']) + rng.choice(['', '', '', '.\\', 'SUB\\..\\']) +
+             '..\\' * rng.randint(1, 6) +
+             rng.choice(['', '', '', 'secret\\', 'outer\\', 'mountCX\\', 'proccwd\\', 'mountC\\', 'mountD\\SUB\\..\\..\\']) +
+             rng.choice(LEAF27))
+        return p
     drive = rng.choice(DRIVES27)
     lead = rng.choice(LEADS27)
     sep = rng.choice(['\\', '\\', '\\', '\\', '/', '\\\\', '\\.\\'])
@@ -229,9 +300,58 @@ def _pre27(rng):
         {'d': 'C', 'p': 'secret', 'k': 'd'}, {'d': 'C', 'p': 'SENTINEL.TXT', 'k': 'f'},
         {'d': 'D', 'p': 'SUB/DEEP', 'k': 'd'}, {'d': 'C', 'p': '.hidden', 'k': 'f'},
         {'d': 'C', 'p': 'sub', 'k': 'd'}, {'d': 'C', 'p': 'a.txt', 'k': 'f'},
+        {'d': 'C', 'p': 'SUB/DEEP/D3/D4', 'k': 'd'}, {'d': 'C', 'p': 'SUB/SUB/DEEP', 'k': 'd'},
+        {'d': 'C', 'p': 'SUB/A.TXT', 'k': 'f'},
     ]
     pre += [e for e in extra if rng.random() < 0.35]
     return pre
+
+
+def _host27(rng, uid):
+    act = rng.choice(['vanish', 'vanish', 'appear', 'appear_dir', 'rename'])
+    op = {'op': 'host', 'act': act, 'd': rng.choice(['C', 'C', 'D']),
+          'p': rng.choice(['SUB', 'SUB/DEEP', 'A.TXT', 'NEWDIR', 'NEW1.TXT', 'LongDirName', 'sub', 'X', 'B.BAS']),
+          'uid': uid}
+    if act == 'rename':
+        op['q'] = rng.choice(['SUB2', 'Sub', 'moved.txt', 'NEWDIR', 'A.TXT'])
+    return op
+
+
+def _st27(rng, uid):
+    k = rng.choice(STMT27)
+    op = {'op': 'st', 'k': k, 'p': gen_path27(rng), 'uid': uid}
+    if k == 'name':
+        op['q'] = gen_path27(rng) if rng.random() < 0.6 else rng.choice(['NEW3.TXT', 'X', '..\\Y', 'SUB\\Z'])
+    if k in ('files', 'kill') and rng.random() < 0.15:
+        op['p'] = rng.choice(['', '*.*', '..\\*.*', '..\\..\\*.*', 'D:*.*', '\\..\\*.*', '*', '..', '.', '...'])
+    return op
+
+
+def _keep27(rng, uid, num=None):
+    return {'op': 'st', 'k': rng.choice(KEEP_KINDS), 'n': num or rng.choice([2, 3]),
+            'p': rng.choice(KEEP_PATHS) if rng.random() < 0.85 else gen_path27(rng), 'uid': uid}
+
+
+def _io27(rng, uid):
+    return {'op': 'st', 'k': rng.choice(IO_KINDS), 'n': rng.choice([2, 2, 3, 3, 1]), 'p': None, 'uid': uid}
+
+
+def _down27(rng):
+    """What the other party does to the mounted trees while the session is down."""
+    r = rng.random()
+    if r < 0.15:
+        return []
+    if r < 0.5:
+        down = [{'act': 'unmount', 'd': rng.choice(['C', 'C', 'D'])}]
+        if rng.random() < 0.3:
+            down.append({'act': 'unmount', 'd': rng.choice(['C', 'D'])})
+    elif r < 0.8:
+        down = [{'act': 'vanish-name', 'name': rng.choice(DOWN_NAMES)} for _ in range(rng.randint(1, 2))]
+    else:
+        down = [{'act': 'rename-name', 'name': rng.choice(DOWN_NAMES), 'q': rng.choice(['MOVED.OLD', 'A.TXT', 'Z9'])}]
+    if rng.random() < 0.15:
+        down.append({'act': 'remount', 'd': rng.choice(['C', 'D'])})
+    return down
 
 
 def gen27(rng, tier):
@@ -243,28 +363,64 @@ def gen27(rng, tier):
         'current': rng.choice(['C', 'C', 'C', 'D']),
         'at': rng.random() < 0.25,
         'pre': _pre27(rng),
+        'spellC': rng.choice(SPELL27),
+        'spellD': rng.choice(SPELL27) if rng.random() < 0.4 else SPELL_PLAIN,
         'session': {},
     }
     host_rate = rng.choice([0, 0, 0.05, 0.12])
+    # about a third of the histories keep files open and restart the session with them open
+    restarts = rng.random() < 0.35
     ops = []
-    for i in range(n):
-        uid = 1000000 + i
-        if rng.random() < host_rate:
-            act = rng.choice(['vanish', 'vanish', 'appear', 'appear_dir', 'rename'])
-            op = {'op': 'host', 'act': act, 'd': rng.choice(['C', 'C', 'D']),
-                  'p': rng.choice(['SUB', 'SUB/DEEP', 'A.TXT', 'NEWDIR', 'NEW1.TXT', 'LongDirName', 'sub', 'X', 'B.BAS']),
-                  'uid': uid}
-            if act == 'rename':
-                op['q'] = rng.choice(['SUB2', 'Sub', 'moved.txt', 'NEWDIR', 'A.TXT'])
-            ops.append(op)
-            continue
-        k = rng.choice(STMT27)
-        op = {'op': 'st', 'k': k, 'p': gen_path27(rng), 'uid': uid}
-        if k == 'name':
-            op['q'] = gen_path27(rng) if rng.random() < 0.6 else rng.choice(['NEW3.TXT', 'X', '..\\Y', 'SUB\\Z'])
-        if k in ('files', 'kill') and rng.random() < 0.15:
-            op['p'] = rng.choice(['', '*.*', '..\\*.*', '..\\..\\*.*', 'D:*.*', '\\..\\*.*', '*', '..', '.', '...'])
+
+    def add(op):
         ops.append(op)
+
+    def uid():
+        return 1000000 + len(ops)
+
+    while len(ops) < n:
+        r = rng.random()
+        if r < host_rate:
+            if rng.random() < 0.12:
+                # the medium is taken out for a few statements while the session runs
+                drv = rng.choice(['C', 'D'])
+                add({'op': 'host', 'act': 'unmount', 'd': drv, 'uid': uid()})
+                for _ in range(rng.randint(1, 3)):
+                    add(_st27(rng, uid()))
+                add({'op': 'host', 'act': 'remount', 'd': drv, 'uid': uid()})
+            else:
+                add(_host27(rng, uid()))
+            continue
+        if restarts:
+            r = rng.random()
+            if r < 0.07:
+                # an episode: open, use, restart with the files open (the other party acts meanwhile), use again
+                nums = [2, 3]
+                rng.shuffle(nums)
+                for num in nums[:rng.randint(1, 2)]:
+                    add(_keep27(rng, uid(), num))
+                for _ in range(rng.randint(0, 2)):
+                    add(_io27(rng, uid()) if rng.random() < 0.6 else _st27(rng, uid()))
+                down = _down27(rng)
+                back = rng.choice(['resume', 'resume', 'later', 'never'])
+                add({'op': 'restart', 'down': down, 'back': back == 'resume', 'uid': uid()})
+                for _ in range(rng.randint(1, 4)):
+                    add(_io27(rng, uid()) if rng.random() < 0.7 else _st27(rng, uid()))
+                if back == 'later':
+                    for e in down:
+                        if e['act'] == 'unmount':
+                            add({'op': 'host', 'act': 'remount', 'd': e['d'], 'uid': uid()})
+                continue
+            if r < 0.13:
+                add(_keep27(rng, uid()))
+                continue
+            if r < 0.19:
+                add(_io27(rng, uid()))
+                continue
+            if r < 0.22:
+                add({'op': 'restart', 'down': _down27(rng), 'back': rng.random() < 0.6, 'uid': uid()})
+                continue
+        add(_st27(rng, uid()))
     return {'machine': NAME, 'prop': 'C27', 'cfg': cfg, 'ops': ops}
 
 
@@ -359,11 +515,23 @@ def simplify(cfg, ops):
         c = dict(cfg)
         c['pre'] = cfg['pre'][:i] + cfg['pre'][i + 1:]
         yield c, ops
-    for key, val in (('cwdC', ''), ('cwdD', ''), ('at', False), ('current', 'C')):
-        if cfg.get(key) != val and not (key == 'cwdC' and cfg.get('mode') == 28):
+    for key, val in (('cwdC', ''), ('cwdD', ''), ('at', False), ('current', 'C'), ('spellC', SPELL_PLAIN),
+                     ('spellD', SPELL_PLAIN)):
+        if cfg.get(key, val) != val and not (key == 'cwdC' and cfg.get('mode') == 28):
             c = dict(cfg)
             c[key] = val
             yield c, ops
+    # a restart with less done by the other party while the session is down
+    for i, op in enumerate(ops):
+        if op.get('op') == 'restart':
+            for k in range(len(op.get('down', []))):
+                o = dict(op)
+                o['down'] = op['down'][:k] + op['down'][k + 1:]
+                yield cfg, ops[:i] + [o] + ops[i + 1:]
+            if not op.get('back'):
+                o = dict(op)
+                o['back'] = True
+                yield cfg, ops[:i] + [o] + ops[i + 1:]
 
 
 ###############################################################################
@@ -390,10 +558,24 @@ class Env(object):
         if cfg.get('at'):
             self.mounts['@'] = os.path.join(self.outer, 'mountAt')
         self.proccwd = os.path.join(scratch, 'proccwd')
+        self.away = os.path.join(scratch, 'away')
+        self.statefile = os.path.join(scratch, 'harness', 'fs.state')
         self.uid_by_content = {}
+        # what is passed to Session(devices=...) and the directory tree it stands for
+        self.spec = {}
+        self.root = {}
         self._build()
+        for drv in sorted(self.mounts):
+            self.spec[drv] = self.spell(drv)
+            self.root[drv] = os.path.realpath(os.path.join(self.proccwd, self.spec[drv]))
+            if not (self.root[drv] + os.sep).startswith(self.mounts[drv] + os.sep):
+                raise K.HarnessError('mount spelling %r resolves to %r' % (self.spec[drv], self.root[drv]))
+        self._build_mounts()
         self.fs = simfs.SimFS(self.w, [self.outer])
-        self.roots = [os.path.realpath(m) for m in self.mounts.values()]
+        self.roots = [self.root[drv] for drv in sorted(self.root)]
+        self.links = [os.path.join(self.outer, 'linkC'), os.path.join(self.outer, 'linkD')]
+        self.gone = {}        # drive -> where its directory is while it is taken away
+        self.kept = set()     # file numbers a keep_* statement opened without error (coverage only)
         import pcbasic
         self.ro_roots = sorted(set(os.path.realpath(p) for p in (
             sys.prefix, sys.base_prefix, os.path.dirname(os.__file__), os.path.dirname(pcbasic.__file__))))
@@ -414,11 +596,19 @@ class Env(object):
         with simfs.real_open(path, 'wb') as f:
             f.write(data)
 
+    def spell(self, drv):
+        tmpl = self.cfg.get('spell' + drv) or SPELL_PLAIN
+        return tmpl.replace(PH_N, self.outer).replace(PH_M, 'mount' + drv.replace('@', 'At')).replace(PH_L, 'link' + drv)
+
     def _build(self):
         os.makedirs(self.outer)
         os.makedirs(self.proccwd)
+        os.makedirs(self.away)
+        os.makedirs(os.path.dirname(self.statefile))
         for m in self.mounts.values():
             os.makedirs(m)
+        os.symlink('mountC', os.path.join(self.outer, 'linkC'))
+        os.symlink(self.mounts['D'], os.path.join(self.outer, 'linkD'))
         os.makedirs(os.path.join(self.outer, 'secret', 'QZHIDDIR'))
         os.makedirs(os.path.join(self.outer, 'mountCX'))
         self._put(os.path.join(self.scratch, 'TOP.TXT'), b'MRKQZ-top\r\n10 PRINT %d\r\n' % SENT_NUM[0])
@@ -430,17 +620,28 @@ class Env(object):
         self._put(os.path.join(self.outer, 'secret', 'S.BAS'), b'10 PRINT %d\r\n' % SENT_NUM[4])
         self._put(os.path.join(self.outer, 'secret', 'SECRET.TXT'), b'10 PRINT %d\r\nMRKQZ-secret\r\n' % SENT_NUM[4])
         self._put(os.path.join(self.outer, 'mountCX', 'PFX.TXT'), b'10 PRINT %d\r\n' % SENT_NUM[5])
+        # the process cwd holds files under the names the workload opens on the drives
+        self._put(os.path.join(self.proccwd, 'A.TXT'), b'10 PRINT %d\r\n20 PRINT %d\r\nMRKQZ-cwd\r\n' % (SENT_NUM[6], SENT_NUM[6]))
+        self._put(os.path.join(self.proccwd, 'B.BAS'), b'10 PRINT %d\r\n' % SENT_NUM[7])
+        self._put(os.path.join(self.proccwd, 'S1.TXT'), b'10 PRINT %d\r\n' % SENT_NUM[8])
+        self._put(os.path.join(self.proccwd, 'D.DAT'), b'10 PRINT %d\r\n' % SENT_NUM[9])
+
+    def _build_mounts(self):
         n = 3000000
         for e in self.cfg.get('pre', []):
             n += 1
-            self.host_make(e['d'], e['p'], e['k'], e.get('uid', n))
+            self.host_make(e['d'], e['p'], e['k'], e.get('uid', n), self.mounts)
         for drv, key in (('C', 'cwdC'), ('D', 'cwdD')):
+            if os.path.lexists(self.root[drv]) and not os.path.isdir(self.root[drv]):
+                os.remove(self.root[drv])
+            os.makedirs(self.root[drv], exist_ok=True)
             if self.cfg.get(key):
-                os.makedirs(os.path.join(self.mounts[drv], self.cfg[key]), exist_ok=True)
+                os.makedirs(os.path.join(self.root[drv], self.cfg[key]), exist_ok=True)
 
-    def host_make(self, drv, rel, kind, uid):
+    def host_make(self, drv, rel, kind, uid, where=None):
         """The other party creates a file or directory (never outside the mount, never a symlink)."""
-        path = os.path.join(self.mounts.get(drv, self.mounts['C']), rel)
+        where = where or self.root
+        path = os.path.join(where.get(drv, where['C']), rel)
         try:
             if kind == 'd':
                 os.makedirs(path, exist_ok=True)
@@ -455,14 +656,24 @@ class Env(object):
     def sentinel_snapshot(self):
         """Everything under <scratch> except the mounts: relpath -> ('d', mode) | ('f', mode, bytes)."""
         snap = {}
-        skip = set(os.path.realpath(m) for m in self.mounts.values())
+        skip = set(self.root.values()) | set(os.path.join(self.away, drv) for drv in self.root)
         for dirpath, dirnames, filenames in os.walk(self.scratch):
-            dirnames[:] = sorted(dn for dn in dirnames if os.path.realpath(os.path.join(dirpath, dn)) not in skip)
             rel = os.path.relpath(dirpath, self.scratch)
+            for dn in dirnames:
+                if os.path.islink(os.path.join(dirpath, dn)):
+                    snap[os.path.join(rel, dn)] = ('l', os.readlink(os.path.join(dirpath, dn)))
+            dirnames[:] = sorted(dn for dn in dirnames if os.path.join(dirpath, dn) not in skip
+                                 and not os.path.islink(os.path.join(dirpath, dn)))
             snap[rel] = ('d', _stat.S_IMODE(os.lstat(dirpath).st_mode))
             for fn in sorted(filenames):
                 p = os.path.join(dirpath, fn)
+                if p in skip:
+                    # something else than a directory at a mount point (while its directory is away)
+                    continue
                 st = os.lstat(p)
+                if _stat.S_ISLNK(st.st_mode):
+                    snap[os.path.join(rel, fn)] = ('l', os.readlink(p))
+                    continue
                 if _stat.S_ISREG(st.st_mode):
                     with simfs.real_open(p, 'rb') as f:
                         data = f.read()
@@ -496,12 +707,12 @@ class Env(object):
         cfg = self.cfg
         devices = {}
         for drv, key in (('C', 'cwdC'), ('D', 'cwdD')):
-            spec = self.mounts[drv]
+            spec = self.spec[drv]
             if cfg.get(key):
                 spec += ':' + cfg[key]
             devices[drv + ':'] = spec
         if '@' in self.mounts:
-            devices['@:'] = self.mounts['@']
+            devices['@:'] = self.spec['@']
         # without this the engine mounts the process cwd as Z: (documented default)
         devices['Z:'] = None
         self.d = Driver(self.w, devices=devices, current_device=cfg.get('current', 'C') + ':', **cfg.get('session', {}))
@@ -546,6 +757,78 @@ class Env(object):
         w.log.add('out', self.mask(out))
         return Res(out, w.poll_no - w.op_poll_base)
 
+    def close(self):
+        """Session.close() under the monitor (it flushes and closes the files still open)."""
+        fs = self.fs
+        fs.calls = []
+        fs.audit = []
+        fs.monitor = True
+        try:
+            try:
+                self.d.close()
+            except EngineCrash:
+                fs.monitor = False
+                raise
+        finally:
+            fs.monitor = False
+        self.check_monitor('Session.close()', 'close')
+
+    def restart(self, op):
+        """
+        Session.suspend, close; the other party acts on the mounts; Session.resume, attach. The engine's
+        part runs under the monitor (files re-opened by the resume are the engine's accesses).
+        """
+        from pcbasic.basic import Session
+        w, fs, run = self.w, self.fs, self.run
+        w.log.add('restart', len(op.get('down', [])), bool(op.get('back')))
+        spelled = ''.join(' [%s: mounted as %r]' % (drv, self.rel(self.spec[drv])) for drv in sorted(self.spec)
+                          if self.cfg.get('spell' + drv, SPELL_PLAIN) != SPELL_PLAIN)
+        d = self.d
+        fs.calls = []
+        fs.audit = []
+        fs.monitor = True
+        try:
+            try:
+                d._guard('suspend', lambda: d.s.suspend(self.statefile))
+                d.close()
+            except EngineCrash:
+                fs.monitor = False
+                raise
+        finally:
+            fs.monitor = False
+        self.check_monitor('Session.suspend()+close() with files open' + spelled, 'suspend')
+        done = []
+        for e in op.get('down', []):
+            if do_host(self, dict(e, op='host'), when='down'):
+                done.append(e['act'])
+        fs.calls = []
+        fs.audit = []
+        fs.monitor = True
+        try:
+            try:
+                s2 = d._guard('resume', lambda: Session.resume(self.statefile))
+                self.d = Driver(w, session=s2)
+            except EngineCrash:
+                fs.monitor = False
+                raise
+        finally:
+            fs.monitor = False
+        w.faults['restart'] += 1
+        what = 'Session.resume() with files open, after the other party did %r while it was down%s' % (done, spelled)
+        self.check_monitor(what, 'resume')
+        try:
+            os.remove(self.statefile)
+        except OSError:
+            pass
+        if op.get('back'):
+            for drv in sorted(self.gone):
+                do_host(self, {'op': 'host', 'act': 'remount', 'd': drv})
+        run.state('C27', 'restart', tuple(done), bool(op.get('back')), len(self.kept))
+        if self.kept:
+            run.probe('restart-with-kept-files')
+            if done:
+                run.probe('restart-with-kept-files-and-host-change')
+
     def mask(self, out):
         return _FREE.sub(b'# Bytes free', out).replace(b(self.scratch), b'<<S>>')
 
@@ -556,8 +839,14 @@ class Env(object):
     # -- C27 oracles -----------------------------------------------------
 
     def zone(self, rp):
-        if rp is None:
+        if rp is None or '\0' in rp:
+            # a path with a NUL never reaches the host (the host call raises ValueError before the system call)
             return None
+        if not os.path.isabs(rp):
+            rp = os.path.normpath(os.path.join(self.proccwd, rp))
+        if rp in self.links:
+            # the symbolic link itself (calls that do not follow a final link: rename, remove, rmdir)
+            return 'mount-point-symlink'
         for r in self.roots:
             if rp == r or rp.startswith(r + os.sep):
                 return None
@@ -573,6 +862,9 @@ class Env(object):
 
     def allowed(self, kind, rp):
         if rp == os.devnull:
+            return True
+        if rp == self.statefile and kind in ('open', 'open:rb', 'open:wb'):
+            # the state file named by the harness in Session.suspend(path) / Session.resume(path)
             return True
         ro = kind in ('stat', 'lstat', 'access', 'listdir', 'scandir', 'readlink', 'os.listdir', 'os.scandir') or (
             kind.startswith('open:') and not set(kind[5:]) & set('wax+'))
@@ -601,8 +893,30 @@ class Env(object):
             return kind
         return kind
 
-    def check_monitor(self, what, shape):
+    def mount_class(self, p):
+        """Spelling class of the drive a DOS path addresses (None: plain, or no path)."""
+        if p is None:
+            return None
+        drv = aupper(p[0]) if len(p) >= 2 and p[1] == ':' else self.cfg.get('current', 'C')
+        return spell_class(self.cfg.get('spell' + drv)) if drv in ('C', 'D') else None
+
+    def repair_links(self):
+        """The other party puts the symbolic links back where they were (after a statement moved one)."""
+        for root in self.roots:
+            for dirpath, dirnames, filenames in os.walk(root):
+                dirnames.sort()
+                for nm in sorted(dirnames + filenames):
+                    if os.path.islink(os.path.join(dirpath, nm)):
+                        os.remove(os.path.join(dirpath, nm))
+        for link, target in zip(self.links, ('mountC', self.mounts['D'])):
+            if not os.path.islink(link) and not os.path.lexists(link):
+                os.symlink(target, link)
+
+    def check_monitor(self, what, shape, p=None):
         run = self.run
+        mcls = self.mount_class(p)
+        if mcls:
+            shape += ':mount-' + mcls
         if self.fs.calls or self.fs.audit:
             self.n_monitored += 1
         seen = set()
@@ -621,6 +935,8 @@ class Env(object):
                 run.violate('C27', 'outside-mount:%s:%s:%s' % (kc, z, shape),
                             '%s made a host call outside every mount: %s(%s) [seen by %s]; statement: %r' % (
                                 what.split(' ')[0], kind, self.rel(rp), src, what))
+                if z == 'mount-point-symlink':
+                    self.repair_links()
 
     def rel(self, rp):
         if rp is not None and rp.startswith(self.scratch):
@@ -666,8 +982,8 @@ class Env(object):
 ###############################################################################
 # statements
 
-def _stmt(kind, P, Q, uid):
-    """BASIC line (bytes) for a statement kind; P, Q are string expressions."""
+def _stmt(kind, P, Q, uid, num=2):
+    """BASIC line (bytes) for a statement kind; P, Q are string expressions, num a file number for keep_*/io_*."""
     n = b'%d' % uid
     if kind == 'open_o':
         return b'OPEN ' + P + b' FOR OUTPUT AS 1:PRINT#1,"10 PRINT ' + n + b'":CLOSE 1'
@@ -710,6 +1026,27 @@ def _stmt(kind, P, Q, uid):
         return b'RMDIR ' + P
     if kind == 'chdir':
         return b'CHDIR ' + P
+    f = b'%d' % num
+    if kind == 'keep_i':
+        return b'OPEN ' + P + b' FOR INPUT AS ' + f
+    if kind == 'keep_o':
+        return b'OPEN ' + P + b' FOR OUTPUT AS ' + f
+    if kind == 'keep_a':
+        return b'OPEN ' + P + b' FOR APPEND AS ' + f
+    if kind == 'keep_r':
+        return b'OPEN ' + P + b' AS ' + f + b' LEN=18'
+    if kind == 'io_in':
+        return b'LINE INPUT#' + f + b',A$:PRINT A$'
+    if kind == 'io_out':
+        return b'PRINT#' + f + b',"30 PRINT ' + n + b'"'
+    if kind == 'io_get':
+        return b'FIELD#' + f + b',18 AS F$:GET#' + f + b',1:PRINT F$'
+    if kind == 'io_put':
+        return b'FIELD#' + f + b',18 AS F$:LSET F$="10 PRINT ' + n + b'":PUT#' + f + b',1'
+    if kind == 'io_close':
+        return b'CLOSE ' + f
+    if kind == 'io_eof':
+        return b'PRINT EOF(' + f + b');LOF(' + f + b');LOC(' + f + b')'
     raise K.HarnessError('unknown statement kind %r' % (kind,))
 
 
@@ -770,13 +1107,25 @@ def do_statement(env, op):
             run.probe('path-via-variable')
         else:
             exprs.append(lit)
-    line = _stmt(kind, exprs[0], exprs[1], op['uid'])
+    num = op.get('n', 2)
+    if kind.startswith('keep_') and exprs[0] is None:
+        exprs[0] = b'""'
+    line = _stmt(kind, exprs[0], exprs[1], op['uid'], num if isinstance(num, int) and 1 <= num <= 3 else 2)
     what = u(line)
     if exprs[0] == b'P$':
         what += ' [P$=%r]' % (p,)
     if exprs[1] == b'Q$':
         what += ' [Q$=%r]' % (q,)
+    for drv in sorted(env.spec):
+        if env.cfg.get('spell' + drv, SPELL_PLAIN) != SPELL_PLAIN:
+            what += ' [%s: mounted as %r]' % (drv, env.rel(env.spec[drv]))
     r = env.X(line)
+    if kind.startswith('keep_') and r.err is None:
+        env.kept.add(num)
+    elif kind == 'io_close':
+        env.kept.discard(num)
+    elif kind in PROGRAM_KINDS and kind != 'merge':
+        env.kept.clear()
     shape = path_shape(p)
     if kind == 'name' and SHAPE_RANK.index(path_shape(q)) < SHAPE_RANK.index(shape):
         shape = path_shape(q)
@@ -784,7 +1133,7 @@ def do_statement(env, op):
         # an earlier CHDIR already left the mount: what follows is a consequence, not a new class
         shape = 'after-cwd-escape'
     before = len(run.res['violations'])
-    env.check_monitor(what, shape)
+    env.check_monitor(what, shape, p)
     if kind == 'chdir' and r.err is None and len(run.res['violations']) > before:
         env.cwd_escaped = True
     env.check_output(what, env.mask(r.out))
@@ -792,27 +1141,64 @@ def do_statement(env, op):
     if kind == 'load' and r.err is None:
         extra = env.X(b'LIST')
         env.check_output(what + ' + LIST', env.mask(extra.out))
-    # leave no file open, whatever happened
-    c = env.X(b'CLOSE')
-    env.check_monitor('CLOSE after ' + what, shape)
+    # leave the statement's own file number closed, whatever happened (#2 and #3 are the histories' to keep open)
+    c = env.X(b'CLOSE 1')
+    env.check_monitor('CLOSE 1 after ' + what, shape, p)
     return r, what, extra
 
 
-def do_host(env, op):
-    """The other party changes a mount between two statements."""
+def _named(env, name):
+    """Every entry inside the mounted trees whose name is `name` up to capitalisation, deepest first."""
+    found = []
+    for root in env.roots:
+        for dirpath, dirnames, filenames in os.walk(root):
+            dirnames.sort()
+            for nm in sorted(dirnames) + sorted(filenames):
+                if aupper(nm) == aupper(name):
+                    found.append(os.path.join(dirpath, nm))
+    return sorted(found, key=lambda x: (-x.count(os.sep), x))
+
+
+def do_host(env, op, when='between'):
+    """The other party changes a mount between two statements or while the session is down."""
+    import shutil
     run = env.run
-    root = env.mounts.get(op['d'], env.mounts['C'])
-    path = os.path.join(root, op['p'])
     act = op['act']
+    drv = op.get('d') if op.get('d') in env.root else 'C'
+    root = env.root[drv]
+    path = os.path.join(root, op.get('p') or '')
     done = False
     try:
-        if act == 'appear':
+        if act == 'unmount':
+            # the medium is taken out: the drive's directory is no longer where it was mounted
+            if drv not in env.gone and os.path.isdir(root):
+                os.rename(root, os.path.join(env.away, drv))
+                env.gone[drv] = os.path.join(env.away, drv)
+                done = True
+        elif act == 'remount':
+            if drv in env.gone and not os.path.lexists(root) and os.path.isdir(os.path.dirname(root)):
+                os.rename(env.gone.pop(drv), root)
+                done = True
+        elif act == 'vanish-name':
+            for x in _named(env, op.get('name', '')):
+                if os.path.isdir(x):
+                    shutil.rmtree(x)
+                    done = True
+                elif os.path.lexists(x):
+                    os.remove(x)
+                    done = True
+        elif act == 'rename-name':
+            for x in _named(env, op.get('name', '')):
+                dst = os.path.join(os.path.dirname(x), op.get('q') or 'MOVED.OLD')
+                if os.path.lexists(x) and not os.path.lexists(dst):
+                    os.rename(x, dst)
+                    done = True
+        elif act == 'appear':
             done = not os.path.lexists(path) and env.host_make(op['d'], op['p'], 'f', op['uid'])
         elif act == 'appear_dir':
             done = not os.path.lexists(path) and env.host_make(op['d'], op['p'], 'd', op['uid'])
         elif act == 'vanish':
-            if os.path.isdir(path):
-                import shutil
+            if os.path.isdir(path) and op.get('p'):
                 shutil.rmtree(path)
                 done = True
             elif os.path.lexists(path):
@@ -825,9 +1211,9 @@ def do_host(env, op):
                 done = True
     except (OSError, ValueError):
         done = False
-    env.w.log.add('host', act, op['d'], op['p'], op.get('q'), done)
+    env.w.log.add('host', when, act, op.get('d'), op.get('p'), op.get('name'), op.get('q'), done)
     if done:
-        run.fault(act if act != 'appear_dir' else 'appear')
+        run.fault((act if act != 'appear_dir' else 'appear') + ('-while-suspended' if when == 'down' else ''))
     return done
 
 
@@ -1159,6 +1545,30 @@ _MUT1 = ['mkdir', 'rmdir', 'remove', 'unlink', 'truncate', 'makedirs', 'removedi
 _MUT2 = ['rename', 'replace', 'link', 'symlink']
 
 
+_NOFOLLOW = ('rmdir', 'remove', 'unlink', 'rename', 'replace')
+
+
+def _note_nofollow(kind, path):
+    """
+    rename/remove/rmdir act on a final symbolic link itself, while the monitor's records hold the fully
+    resolved path: record the entry really operated on as well when the two differ.
+    """
+    w = K.WORLD
+    fs = getattr(w, 'fs', None) if w is not None else None
+    if fs is None or not fs.monitor or isinstance(path, int):
+        return
+    try:
+        p = os.fsdecode(os.fspath(path))
+        head, tail = os.path.split(p)
+        if not tail or tail in ('.', '..') or '\0' in p:
+            return
+        nf = os.path.join(simfs._realpath(head or '.'), tail)
+        if nf != simfs._realpath(p):
+            fs.calls.append((kind, nf))
+    except Exception:
+        return
+
+
 def _guard_refuse(kind, path):
     scratch = _GUARD['scratch']
     if scratch is None or isinstance(path, int):
@@ -1189,16 +1599,23 @@ def _install_guard():
 
     def wrap1(name, real):
         def guarded(path, *a, **kw):
-            if _GUARD['scratch'] is not None and _guard_refuse(name, path):
-                raise PermissionError(errno.EACCES, 'refused by verification sandbox', os.fspath(path))
+            if _GUARD['scratch'] is not None:
+                if name in _NOFOLLOW:
+                    _note_nofollow(name, path)
+                if _guard_refuse(name, path):
+                    raise PermissionError(errno.EACCES, 'refused by verification sandbox', os.fspath(path))
             return real(path, *a, **kw)
         guarded.__name__ = name
         return guarded
 
     def wrap2(name, real):
         def guarded(src, dst, *a, **kw):
-            if _GUARD['scratch'] is not None and (_guard_refuse(name, src) | _guard_refuse(name, dst)):
-                raise PermissionError(errno.EACCES, 'refused by verification sandbox', os.fspath(src))
+            if _GUARD['scratch'] is not None:
+                if name in _NOFOLLOW:
+                    _note_nofollow(name, src)
+                    _note_nofollow(name, dst)
+                if _guard_refuse(name, src) | _guard_refuse(name, dst):
+                    raise PermissionError(errno.EACCES, 'refused by verification sandbox', os.fspath(src))
             return real(src, dst, *a, **kw)
         guarded.__name__ = name
         return guarded
@@ -1243,6 +1660,9 @@ def run(case):
                     if op['op'] == 'host':
                         do_host(env, op)
                         continue
+                    if op['op'] == 'restart':
+                        env.restart(op)
+                        continue
                     if judge is not None:
                         judge.step(op)
                     else:
@@ -1251,13 +1671,15 @@ def run(case):
                                   bool(op.get('p')) and ':' in op['p'][:6], len(env.fs.calls) > 0)
                         if r.err is None and op['k'] == 'chdir':
                             run.probe('chdir-ok')
-                env.d.close()
+                env.close()
                 if env.n_monitored:
                     run.probe('runs-with-host-access')
         finally:
             _GUARD['scratch'] = None
             os.chdir(old_cwd)
             K.WORLD = None
+            for drv in sorted(env.gone):
+                do_host(env, {'op': 'host', 'act': 'remount', 'd': drv}, when='end')
             env.final_checks()
 
     return execute(case, body)
